@@ -90,7 +90,7 @@ partial def treePaths (pfx : String) : DTree → List String
 
 /-- (object identity, where it is seen) for everything the harness takes the `id()` of -/
 def identities (w : World) : List ((Nat × String) × String) :=
-  (owners w).flatMap (fun o => (w.roots o).flatMap (fun nr =>
+  (owners w).flatMap (fun o => (w.accessiblesOf o).flatMap (fun nr =>
     let here := ownerKey o ++ ":" ++ nr.1
     ((nr.2, ""), here) :: match w.heap.accAt nr.2 with
       | some a => match a.dtype with
